@@ -220,7 +220,10 @@ def family_part(ck: Check):
                 inside = [lo <= p <= hi for p in params]
                 cs.obs(t, "only_last_outside_target", 0.0 if all(inside[:-1]) else 1.0)
                 ok = (res.accepted_count == len(famv) == len(params) and res.iterations == res.accepted_count - 1 + res.rejected_count
-                      and (scenario != "leave-target" or not inside[-1]) and (scenario != "member-limit" or len(famv) == mm))
+                      # a run stops because a member left the target interval or because the member bound was reached (with the
+                      # secant stepper `step` is an arc length: the stepped component may advance too slowly to leave the interval)
+                      and (scenario != "leave-target" or not inside[-1] or len(famv) == mm)
+                      and (scenario != "member-limit" or len(famv) == mm))
                 cs.obs(t, "counts_consistent", 0.0 if ok else 1.0)
                 if scenario == "forced-rejections":
                     ck.part("family_rejections", **{label: int(res.rejected_count)})
